@@ -42,7 +42,8 @@ def param_int(r, word, nth=0):
 
 def all_params_integral(r):
     """Lexical validity: every non-literal piece that follows a control word renders an integer."""
-    return all(isinstance(v, (int, Dec)) for _, v in ctl_params(r))
+    from pyvc.values import Fmt
+    return not any(isinstance(v, Fmt) for _, v in ctl_params(r)) and not any(isinstance(p, Fmt) for p in rope_of(r).pieces)
 
 
 def literal_text(r):
